@@ -175,7 +175,7 @@ PROBES = [
     ("Call-nonName", "(rec,)[0](1)"),
     ("Name-outside", "__import__('os')"), ("Name-outside", "getattr(1, 'real')"), ("Name-outside", "eval('1')"),
     ("Name-outside", "__builtins__"), ("Name-outside", "undefined_name"), ("Name-outside", "mito_mod"),
-    ("Name-outside", "self"), ("Name-outside", "type(1)"),
+    ("Name-outside", "self"), ("Name-outside", "globals()"),
 ]
 H = "§"  # hole marker
 
@@ -355,21 +355,21 @@ DOCUMENTED_PURE = {
     "trunc", "factorial", "gcd", "degrees", "radians", "pi", "e", "tau", "inf",
 }
 # names whose behaviour IS attribute access / subscripting / code execution / import / IO / namespace
-# access.  'sig' = (args -> expected value) for the pure ones so that "succeeded with the signature value"
+# access (introspection helpers such as type/id/isinstance/iter are NOT in the statement's forbidden list: if
+# ever accepted they are listed as unvetted_names, not judged).  'sig' = (args -> expected value) for the pure ones so that "succeeded with the signature value"
 # is a witnessed behaviour; None = any success of a call is the witness.
 _ITEMS = [1, 2]
 DANGEROUS = {
+    # attribute access / namespace access
     "getattr": {"(1, 'real')": 1}, "hasattr": {"(1, 'real')": True}, "setattr": None, "delattr": None,
-    "type": {"(1)": int, "('os')": str, "('1+1')": str, "([1, 2])": list}, "vars": None, "dir": None,
-    "globals": None, "locals": None, "eval": {"('1+1')": 2}, "exec": None, "compile": None, "__import__": None,
+    "vars": None, "dir": None, "globals": None, "locals": None, "__getattr__": None, "__getattribute__": None,
+    "attrgetter": None, "methodcaller": None,
+    # subscripting
+    "getitem": None, "setitem": None, "delitem": None, "itemgetter": None, "__getitem__": None,
+    "__setitem__": None, "__delitem__": None,
+    # code execution / import / IO / process control (not pure)
+    "eval": {"('1+1')": 2}, "exec": None, "compile": None, "__import__": None, "__build_class__": None,
     "open": None, "input": None, "print": None, "breakpoint": None, "help": None, "exit": None, "quit": None,
-    "object": None, "super": None, "memoryview": None, "classmethod": None, "staticmethod": None,
-    "property": None, "iter": None, "next": None, "map": None, "filter": None, "id": None,
-    "isinstance": None, "issubclass": None, "callable": {"(1)": False, "('os')": False},
-    "__build_class__": None, "__getattr__": None, "__getattribute__": None, "__getitem__": None,
-    # operator module
-    "attrgetter": None, "itemgetter": None, "methodcaller": None, "getitem": None, "setitem": None,
-    "delitem": None, "call": None, "__call__": None, "__getitem__op": None,
 }
 SHAPES = [None, (), (1,), ("os",), (1, "real"), ("1+1",), ([1, 2],)]  # None = bare name
 
@@ -1136,13 +1136,20 @@ def operator_observation():
 # --------------------------------------------------------------------------------------------
 def _merge(ctx, tag, results):
     evals = 0
+    best = {}  # key -> [what, case, n]; the reported case must not depend on the seed's enumeration order
     for r in results:
         evals += r["evals"]
         for o in r["outcomes"]:
             ctx.outcomes.add((tag,) + tuple(o))
-        for key, v in sorted(r["viol"].items()):
-            for _ in range(v["n"]):
-                ctx.report(key, v["what"], v["case"])
+        for key, v in r["viol"].items():
+            b = best.setdefault(key, [v["what"], v["case"], 0])
+            b[2] += v["n"]
+            if repr(common.jsonable(v["case"])) < repr(common.jsonable(b[1])):
+                b[0], b[1] = v["what"], v["case"]
+    for key in sorted(best):
+        what, case, n = best[key]
+        for _ in range(n):
+            ctx.report(key, what, case)
     ctx.stats[f"{tag}.evaluations"] += evals
     return evals
 
@@ -1163,7 +1170,7 @@ def run(ctx):
     # ---- 1a confinement: node classes
     found, forbidden, unprobed = node_class_table()
     ctxs = contexts(depth)
-    n_sc = selfcheck_contexts(ctxs if quick else contexts(2))
+    n_sc = selfcheck_contexts(ctxs)
     order = common.rotate(range(len(PROBES)), ctx.seed)
     jobs = [(depth, [i]) for i in order]
     res = common.pmap(conf_worker, jobs)
@@ -1229,7 +1236,7 @@ def run(ctx):
     rres = run_children(resource_child, [e for _, e in rot], DEADLINE_S, max(1, min(nproc, 16)))
     slow_cheap = []
     n_over = 0
-    for (cls, expr), (status, payload) in zip(rot, rres):
+    for (cls, expr), (status, payload) in sorted(zip(rot, rres), key=lambda z: cases.index(z[0])):
         outcome, viol = judge_resource(cls, expr, status, payload)
         ctx.outcomes.add(("resource",) + outcome)
         total += 1
